@@ -290,6 +290,7 @@ def replay(case):
 def main():
     t = common.tier()
     chk = common.Check(PID, 'fault_enumeration')
+    chk.unexercised_whats = {'baseline-restore-failed'}   # a failing command is not what C04 is about: reported as 'could not exercise'
     H.materialize()
     try:
         batches = []
